@@ -27,6 +27,9 @@ func NewLevelDBStore(cfg dbconfig.LevelDBOptions) (*LevelDBStore, error) {
 		opts.ErrorIfMissing = true
 	}
 	opts.Filter = filter.NewBloomFilter(10)
+	// goleveldb can reuse the number of a removed table file for a new one,
+	// cached blocks of the removed file must not be served for it.
+	opts.BlockCacheEvictRemoved = true
 	db, err := leveldb.OpenFile(cfg.DataDirectoryPath, opts)
 	if err != nil {
 		return nil, fmt.Errorf("failed to open LevelDB instance: %w", err)
